@@ -43,9 +43,10 @@ PlainQ(src, qn) == Req(FALSE, FALSE, 0, 1, TRUE, "ok", "none", src, qn)
 GateCfg == Cfg({ZZ, ZA}, <<"C">>, {P16}, {P8})       \* Src1 allowed (10.0/16 inside 10/8), Src2 denied
 GateReqs ==
     {Req(TRUE, qr, 0, 0, FALSE, "ok", "none", s, ZZ) : qr \in BOOLEAN, s \in {Src1, Src2}}
-    \cup {Req(FALSE, TRUE, op, qd, TRUE, "ok", e, s, <<lx, la, lz>>) : op \in {0, 5, 7}, qd \in 0..1, e \in {"none", "v1"}, s \in {Src1, Src2}}
+    \cup {Req(FALSE, TRUE, op, qd, TRUE, "ok", e, s, <<lx, la, lz>>) : op \in {0, 5, 7, 13}, qd \in 0..1, e \in {"none", "v1"}, s \in {Src1, Src2}}
     \cup {Req(FALSE, FALSE, op, qd, qok, be[1], be[2], s, qn) :
-            op \in {0, 5, 4, 2, 1, 7}, qd \in 0..2, qok \in BOOLEAN,
+            \* the OPCODE field has four bits: 8, 13, 15 are 0 (QUERY), 5 (UPDATE), 7 with the top bit set
+            op \in {0, 5, 4, 2, 1, 7, 8, 13, 15}, qd \in 0..2, qok \in BOOLEAN,
             be \in {<<"ok", "none">>, <<"ok", "v0">>, <<"ok", "v1">>, <<"bad", "none">>},
             s \in {Src1, Src2}, qn \in {<<lx, la, lz>>, <<lx, lo>>, <<STAR, la, lz>>}}
 GateCases == {[g |-> "gate", proto |-> p, req |-> r, cfg |-> GateCfg, ucase |-> FALSE] : r \in GateReqs, p \in {"udp", "tcp"}}
